@@ -29,6 +29,10 @@ func init() {
 	add("C05", Sub{Name: "C05/enum", Mode: "free", QuickS: 150, ThorS: 1500})
 	add("C06", Sub{Name: "C06/enum", Mode: "free", QuickS: 150, ThorS: 1500})
 	add("C07", Sub{Name: "C07/enum", Mode: "free", QuickS: 150, ThorS: 1500})
+	add("C08", Sub{Name: "C08/enum", Mode: "free", QuickS: 150, ThorS: 900})
+	add("C09", Sub{Name: "C09/enum", Mode: "free", QuickS: 150, ThorS: 1700})
+	add("C10", Sub{Name: "C10/enum", Mode: "free", QuickS: 150, ThorS: 1500})
+	add("C16", Sub{Name: "C16/enum", Mode: "free", QuickS: 150, ThorS: 1200})
 	add("C11", Sub{Name: "C11/sched", Mode: "controlled", QuickS: 100, ThorS: 1500})
 }
 
